@@ -52,12 +52,13 @@ def run(ctx):
     for depth, pool in plans:
         cases, preds = L.generate(ctx, depth, pool)
         L.replay(ctx, binp, cases, preds, lambda op, probe: op["op"].startswith(("up_", "new_", "reset")),
-                 f"C05-hist-d{depth}p{pool}", 8)
+                 f"C05-hist-d{depth}p{pool}", 14)
         for c in cases[::max(1, len(cases) // 3)][:2]:
             ctx.sample({"history": [L.opkey(o) for o in c["ops"]]})
         for c in cases:
-            if any(o["op"] in ("up_tok", "up_part") for o in c["ops"][:-8]):
-                ctx.nontriv(("hist", json.dumps(c["ops"][:-8])))
+            if any(o["op"] in ("up_tok", "up_part") for o in c["ops"][:-14]):
+                ctx.nontriv(("hist", json.dumps(c["ops"][:-14])))
+    L.random_histories(ctx, binp, 240 if ctx.quick else 6000, lambda o: o.startswith(("up_", "reset")))
     ctx.exhaustive = True
 
 
